@@ -53,6 +53,9 @@ pub struct Ctx {
     /// (`E {...}`) at the moment it happens, so that a parent process still has the trace if
     /// this process dies during a call
     pub sink_fd: std::sync::atomic::AtomicI32,
+    /// seed of the schedule perturbation applied inside implementation methods, caller-side
+    /// closures and callback objects (0 = none)
+    pub pseed: AtomicU64,
 }
 
 impl Ctx {
@@ -64,6 +67,7 @@ impl Ctx {
             pcount: Default::default(),
             quiet: Default::default(),
             sink_fd: std::sync::atomic::AtomicI32::new(-1),
+            pseed: AtomicU64::new(0),
         })
     }
     pub fn ev(&self, k: &str, n: &[u64], d: Vec<DV>) {
@@ -128,6 +132,7 @@ impl Ctx {
     }
     /// Called by caller-side closures: records the invocation, returns the scripted value.
     pub fn closure_invoked(&self, arg: usize, n: usize, args: Vec<DV>, rets: &[DV]) -> DV {
+        self.perturb(self.pseed.load(Ordering::Relaxed));
         let r = if rets.is_empty() { DV::unit() } else { rets[n % rets.len()].clone() };
         let mut d = args;
         d.push(r.clone());
@@ -198,7 +203,7 @@ impl ImplHandle {
     pub fn begin(&self, method: &str, mutating: bool, args: Vec<DV>) -> Script {
         let n = if mutating { self.calls.fetch_add(1, Ordering::Relaxed) + 1 } else { self.calls.load(Ordering::Relaxed) };
         let s = self.ctx.take_script().unwrap_or(ImplScript { ret: DV::unit(), panic: None, plans: vec![], perturb: 0 });
-        self.ctx.perturb(s.perturb);
+        self.ctx.perturb(if s.perturb != 0 { s.perturb } else { self.ctx.pseed.load(Ordering::Relaxed) });
         self.ctx.ev(&format!("impl.call:{}", method), &[n], args);
         Script { ret: s.ret, panic: s.panic, plans: s.plans }
     }
@@ -229,6 +234,7 @@ impl CbImpl {
 }
 impl Cb for CbImpl {
     fn ping(&self, x: u32) -> u32 {
+        self.ctx.perturb(self.ctx.pseed.load(Ordering::Relaxed));
         let r = x.wrapping_mul(31).wrapping_add(self.id);
         self.ctx.ev("obj.ping", &[self.id as u64], vec![DV::N(x as u128), DV::N(r as u128)]);
         r
